@@ -45,11 +45,20 @@ pub struct Cur<'a> {
     /// how many optional fields were filled / left empty
     pub some: u32,
     pub none: u32,
+    /// upper bound on the entries of generated hash maps. The product serialises maps in
+    /// iteration order, which differs from process to process; parts whose outcome depends on
+    /// the encoded bytes (corruption positions, compressed size against a limit) use 1.
+    pub max_map: usize,
 }
 
 impl<'a> Cur<'a> {
     pub fn new(bag: &'a Bag) -> Self {
-        Cur { bag, iu: 0, is: 0, i_f: 0, ib: 0, io: 0, ie: 0, some: 0, none: 0 }
+        Cur { bag, iu: 0, is: 0, i_f: 0, ib: 0, io: 0, ie: 0, some: 0, none: 0, max_map: 4 }
+    }
+    pub fn with_max_map(bag: &'a Bag, max_map: usize) -> Self {
+        let mut c = Self::new(bag);
+        c.max_map = max_map;
+        c
     }
     pub fn u64(&mut self) -> u64 {
         let v = if self.bag.u.is_empty() { 0 } else { self.bag.u[self.iu % self.bag.u.len()] };
@@ -261,7 +270,7 @@ fn partition_summary(c: &mut Cur) -> PartitionStateSummary {
 }
 
 fn pending_tx(c: &mut Cur) -> PendingTxState {
-    let nv = c.count(3);
+    let nv = c.count(3).min(c.max_map);
     let mut votes = std::collections::HashMap::new();
     for _ in 0..nv {
         votes.insert(c.usize(), c.flag());
@@ -559,7 +568,7 @@ pub fn tensor_value(c: &mut Cur) -> TensorValue {
 
 pub fn tensor_data(c: &mut Cur) -> TensorData {
     let mut t = TensorData::new();
-    let n = c.count(4);
+    let n = c.count(4).min(c.max_map);
     for i in 0..n {
         let name = format!("{}{}", c.string(), i);
         t.set(name, tensor_value(c));
